@@ -515,6 +515,14 @@ func runSolver(ctx context.Context, sp solverSpec, file string, sec int) solveOu
 	out, _ := cmd.CombinedOutput()
 	secs := time.Since(t0).Seconds()
 	s := string(out)
+	for strings.HasPrefix(s, "WARNING") {
+		// solver warnings (e.g. an unusable quantifier pattern) precede the answer
+		if i := strings.Index(s, "\n"); i >= 0 {
+			s = s[i+1:]
+		} else {
+			break
+		}
+	}
 	first := strings.TrimSpace(strings.SplitN(s, "\n", 2)[0])
 	st := "unknown"
 	switch first {
@@ -588,7 +596,12 @@ func batchSolve(c *Ctx, obls []*Obligation, dir string, stats *solveStats) {
 			defer cancel()
 			out, _ := exec.CommandContext(ctx, "nice", "-n", "15", "z3-new", file).CombinedOutput()
 			secs := time.Since(t0).Seconds()
-			lines := strings.Split(strings.TrimSpace(string(out)), "\n")
+			var lines []string
+			for _, ln := range strings.Split(strings.TrimSpace(string(out)), "\n") {
+				if !strings.HasPrefix(ln, "WARNING") {
+					lines = append(lines, ln)
+				}
+			}
 			k := 0
 			n := 0
 			for _, o := range part {
